@@ -12,7 +12,7 @@
                       length field included when the capacity allows >= 255 bytes); reserved ranges anywhere else. *)
 From Coq Require Import ZArith List Bool.
 From NV Require Import Base.Result Base.Bytes Base.PyPrims Model.TlvMem Model.T2T Model.T1T Gen.TlvK
-  Proofs.TlvLib Proofs.T2TWrite Proofs.T1T Bridge.TlvK.
+  Proofs.TlvLib Proofs.T2TWrite Proofs.TlvPhases Proofs.T2TRetry Proofs.T1T Proofs.T1TRetry Bridge.TlvK.
 Import ListNotations.
 Open Scope Z_scope.
 
@@ -95,3 +95,33 @@ Theorem C01_bridge_capacity : forall size off skip,
   gen_t2_cap_end (size * 8) = size * 8 + 16 /\ gen_t1_cap_end size = size.
 Proof. intros. split; [apply bridge_t2_capacity|]. split; [apply bridge_t1_capacity|]. split; reflexivity. Qed.
 Print Assumptions C01_bridge_capacity.
+
+(* ---------------------------------------------------------------- several attempts on one tag object (Type 2).
+   The tag object keeps its memory reader (data_from_tag, data_in_cache) across assignments.  [faults] is any list of
+   attempts of "tag.ndef.octets = d" that failed: the i-th one at its k-th WRITE command, which was either lost on the
+   way to the tag or executed with only the response lost (an attempt with fewer commands completes).  The next,
+   undisturbed attempt (t2_retry) succeeds and a fresh reader returns exactly d, with the same capacity. *)
+Theorem C01_t2_retry_write_read : forall m d cap faults, wf_layout m -> bytes_ok d -> t2_capacity m = Some cap -> len d <= cap ->
+  exists r m1 ws, t2_retry m d faults = Some (r, m1, ws) /\ r = Ok tt /\
+    t2_fresh (apply_ws m1 ws) = Msg d /\ t2_capacity (apply_ws m1 ws) = Some cap.
+Proof. exact t2_retry_write_read. Qed.
+Print Assumptions C01_t2_retry_write_read.
+
+Example C01_t2_retry_nonvacuous :
+  exists m1 ws, t2_retry ex_t2 [209;1;0;7;7;7;7;7;7] [(1%nat, Lost); (2%nat, Unanswered); (3%nat, Lost)] = Some (Ok tt, m1, ws) /\
+    m1 <> ex_t2 /\ ws <> [] /\ t2_fresh (apply_ws m1 ws) = Msg [209;1;0;7;7;7;7;7;7].
+Proof. eexists. eexists. split; [vm_compute; reflexivity|]. split; [vm_compute; discriminate|]. split; [discriminate | vm_compute; reflexivity]. Qed.
+
+(* Type 1: the same, under the guard of the open C02 finding when the length field has three bytes (t1_guard: one length byte,
+   or the three length bytes lie in one write unit) *)
+Theorem C01_t1_retry_write_read_guarded : forall hr0 m d cap L faults, t1_wf_layout hr0 m -> bytes_ok d -> t1_capacity hr0 m = Some cap ->
+  len d <= cap -> t1_layout hr0 m = Some L -> t1_guard hr0 L d ->
+  exists r m1 ws, t1_retry hr0 m d faults = Some (r, m1, ws) /\ r = Ok tt /\
+    t1_fresh hr0 (apply_ws m1 ws) = Msg d /\ t1_capacity hr0 (apply_ws m1 ws) = Some cap.
+Proof. exact t1_retry_write_read. Qed.
+Print Assumptions C01_t1_retry_write_read_guarded.
+
+Example C01_t1_retry_nonvacuous :
+  exists m1 ws, t1_retry 17 ex_t1s [209;1;0;7;7] [(1%nat, Lost); (4%nat, Unanswered)] = Some (Ok tt, m1, ws) /\
+    m1 <> ex_t1s /\ ws <> [] /\ t1_fresh 17 (apply_ws m1 ws) = Msg [209;1;0;7;7].
+Proof. eexists. eexists. split; [vm_compute; reflexivity|]. split; [vm_compute; discriminate|]. split; [discriminate | vm_compute; reflexivity]. Qed.
